@@ -34,10 +34,14 @@ TRUSTED = [
     "real arithmetic stands for binary64 (gap measured by the correspondence, not proved)",
     "stdlib real-number axioms; Classical_Prop.classic where stdlib trigonometry uses it",
 ]
+LEVEL_NOTE = ("needs /repo commit f81ca90 (fixes/C20-mag-noise-override.patch) for C20_mag_is_body_field; on a tree without it the "
+              "check exhibits the defect (C20_refuted.v) and proves only the _partial magnetometer theorems")
 PARTIAL = ("theorems are for a generic 3-row trajectory at freq 100 Hz (each row of the outputs depends on its own and the "
-           "previous quaternion row only; ptp couples rows only through the bias scale and the magnetometer-noise gate): "
-           "uniformity in N, other frequencies and 'integrating the gyro reproduces the trajectory' are explored by the "
-           "search oracle at N >= 10 against the proved per-step bound, not proved for all N")
+           "previous quaternion row only; ptp couples rows only through the bias scale): uniformity in N and in the frequency, "
+           "the glue of the random route (C20_rand_acc/_repr are regenerated and float-validated but carry no theorem; the "
+           "theorems are on QuaternionArray(rpy=...) plus the given-quaternion pipeline), random_angpos itself, and "
+           "'integrating the gyro reproduces the trajectory' are explored by the search oracle at N >= 10 against the proved "
+           "per-step bound th - 2 sin(th/2) <= th^3/24, not proved for all N; rounding is measured, not proved")
 
 
 class StubGen:
@@ -99,6 +103,9 @@ def targets():
            '[.gyroscopes, .biases_gyroscopes, .ang_vel], degrees'),
         mk('repr', QN + MREF + ['sm'], lambda A, v: (lambda s: [np.asarray(s.quaternions), s.rotations, s.ang_pos])(_sensors(A, v)),
            '[.quaternions, .rotations, .ang_pos] for a given trajectory'),
+        mk('from_rpy', ['ro', 'pi', 'ya'],
+           lambda A, v: (lambda Q: [np.asarray(Q), Q.to_DCM()])(A.QuaternionArray(rpy=v.mat([['ro', 'pi', 'ya']]))),
+           'QuaternionArray(rpy=[[roll, pitch, yaw]]) (the constructor Sensors uses for a random trajectory) and its to_DCM()'),
         mk('rand_acc', AN + G + MREF + ['sa', 'sm'] + DRAW['na'], lambda A, v: _sensors(A, v, given=False).accelerometers,
            'Sensors(num_samples=3) with random_angpos -> symbolic angles: .accelerometers'),
         mk('rand_repr', AN + MREF + ['sm'],
@@ -118,16 +125,15 @@ def _finding_live():
 
 
 def _stages():
-    """While the known finding is live the model must exhibit it (C20_refuted.v) and the magnetometer clause is the
-    `_partial` theorem; once it no longer reproduces (fixes/C20-mag-noise-override.patch) the refuted file is expected to
-    stop compiling (handled by the framework) and the positive theorem C20_mag_is_body_field (C20_magfix.v, C20_fixed.v)
-    becomes an obligation."""
+    """While the magnetometer-noise override reproduces on the implementation, the model must exhibit it (C20_refuted.v)
+    and the magnetometer clause is only the `_partial` theorem; when it does not (fixes/C20-mag-noise-override.patch,
+    committed to /repo as f81ca90) the positive theorem C20_mag_is_body_field (C20_magfix.v, C20_fixed.v) is an
+    obligation instead.  The finding is recorded as `fixed`, so a tree on which it reproduces again is a VIOLATION."""
     live = _finding_live()
     st2 = ['C20_acc.v', 'C20_mag.v', 'C20_magnorm.v', 'C20_gyro_rad.v', 'C20_gyro_deg.v', 'C20_repr.v',
-           ('C20_refuted.v', {'finding': TAG_MAG0})]
+           'C20_rand.v', 'C20_firstorder.v', 'C20_euler.v']
     st3 = ['C20.v']
-    if not live:
-        st2.append('C20_magfix.v')
+    st2.append(('C20_refuted.v', {'finding': TAG_MAG0}) if live else 'C20_magfix.v')
     out = [['C20_spec.v'], st2, st3]
     if not live:
         out.append(['C20_fixed.v'])
@@ -244,6 +250,11 @@ def correspondence(ctx):
     run('C20_gyro_rad', _impl_given, lambda s: [s.gyroscopes, s.biases_gyroscopes, s.ang_vel], in_degrees=False)
     run('C20_gyro_deg', _impl_given, lambda s: [s.gyroscopes, s.biases_gyroscopes, s.ang_vel], in_degrees=True)
     run('C20_repr', _impl_given, lambda s: [np.asarray(s.quaternions), s.rotations, s.ang_pos])
+    import ahrs
+    ang = [cm.d(['ro', 'pi', 'ya'], ctx.rng.uniform(-np.pi, np.pi, 3)) for _ in range(n)] + \
+          [cm.d(['ro', 'pi', 'ya'], a) for a in ([0.0, 0.0, 0.0], [np.pi, 0.0, 0.0], [0.0, np.pi / 2, 0.0], [0.3, -np.pi / 2, 2.0], [-np.pi, np.pi, -np.pi])]
+    ctx.correspond('C20_from_rpy', ang, lambda c: (lambda Q: [np.asarray(Q), Q.to_DCM()])(
+        ahrs.QuaternionArray(rpy=np.array([[c['ro'], c['pi'], c['ya']]]))), tol_ulp=256)
     run('C20_rand_acc', _impl_rand, lambda s: s.accelerometers, rand=True)
     run('C20_rand_repr', _impl_rand, lambda s: [np.asarray(s.quaternions), s.rotations, s.ang_pos, s.ang_vel], rand=True)
 
@@ -270,10 +281,16 @@ def _trajectory(inp):
             d = np.array([1.0, 0, 0, 0]) if t < n // 2 else cm.axang_q(axis, th)
         elif kind == 'random-unit':
             Q.append(cm.rand_unit_quat(r)); continue
+        elif kind == 'int-axes':                  # exactly representable integer quaternions (quarter/half turns, 120-degree turns)
+            pool = [[1, 0, 0, 0], [1, 1, 0, 0], [0, 1, 0, 0], [1, 0, 1, 0], [1, 1, 1, 1], [0, 0, 0, 1], [1, 0, 0, -1], [2, 0, 0, 0]]
+            Q.append(np.array(pool[int(r.integers(0, len(pool)))], float)); continue
         else:
             raise ValueError(kind)
         Q.append(cm.unit(cm.qmul(Q[-1], d)))
     Q = np.array(Q)
+    if kind == 'int-axes':
+        Q[0] = [1, 0, 0, 0]
+        return Q                                   # raw integers; the caller normalises for the comparison
     if inp.get('flip'):                            # q and -q are the same attitude: antipodal representative on some rows
         Q[1::3] *= -1.0
     return Q
@@ -307,16 +324,23 @@ def o_sensors(inp):
     if inp.get('normalized_mag') is not None:
         kw['normalized_mag'] = nrm
     if inp.get('mref') is not None:
-        kw['reference_magnetic_vector'] = np.array(inp['mref'], float)
+        kw['reference_magnetic_vector'] = list(inp['mref']) if inp.get('ref_as_list') else np.array(inp['mref'], float)
     if inp.get('gref') is not None:
-        kw['reference_gravitational_vector'] = np.array(inp['gref'], float)
+        kw['reference_gravitational_vector'] = list(inp['gref']) if inp.get('ref_as_list') else np.array(inp['gref'], float)
     given = inp['kind'] == 'given'
     _reseed(seed)
     if given:
         Q = _trajectory(inp)
         form = inp.get('qform', 'array')
-        arg = Q.tolist() if form == 'list' else ahrs.QuaternionArray(Q) if form == 'QuaternionArray' else \
-            Q * 3.0 if form == 'scaled' else Q.copy()
+        if inp['traj'] == 'int-axes':
+            arg = Q.astype(int).tolist() if form == 'list' else Q.astype(int)       # integer operands
+            Q = Q / np.linalg.norm(Q, axis=1, keepdims=True)
+        elif form == 'float32':
+            arg = Q.astype(np.float32)
+            Q = arg.astype(float); Q = Q / np.linalg.norm(Q, axis=1, keepdims=True)
+        else:
+            arg = Q.tolist() if form == 'list' else ahrs.QuaternionArray(Q) if form == 'QuaternionArray' else \
+                Q * 3.0 if form == 'scaled' else Q.copy()
         s = ahrs.Sensors(quaternions=arg, freq=freq, **kw)
         D = _draws(seed, n)
     else:
@@ -467,7 +491,7 @@ def search(ctx, scale):
     another one; the first cases enumerate sizes x zero-noise settings exhaustively"""
     r = ctx.rng
     sizes = [10, 11, 12, 13, 16, 20, 25, 32, 50, 51, 64, 100, 128]
-    trajs = ['const-axis', 'smooth', 'stationary', 'pause-then-turn', 'from-identity', 'random-unit']
+    trajs = ['const-axis', 'smooth', 'stationary', 'pause-then-turn', 'from-identity', 'random-unit', 'int-axes']
     levels = [(0.0, 0.0, 0.0), (0.0, 0.0, 1e6), (0.3, 0.05, 0.0), (0.0, 0.05, 40.0), (2.0, 0.0, 3e5), (0.0, 0.0, 0.0), (0.0, 0.0, 0.0)]
     pick = lambda xs: xs[int(r.integers(0, len(xs)))]
 
@@ -475,11 +499,13 @@ def search(ctx, scale):
         inp = {'kind': 'given', 'traj': traj, 'n': int(n), 'tseed': int(r.integers(1, 2**31)), 'seed': int(r.integers(1, 2**31)),
                'theta': float(pick([0.002, 0.05, 0.3, 0.9])), 'freq': pick([100.0, 50.0, 10.0, 200.0, 1.0, 100]),
                'sg': lv[0], 'sa': lv[1], 'sm': lv[2], 'in_degrees': deg, 'normalized_mag': nrm,
-               'qform': pick(['array', 'list', 'QuaternionArray', 'scaled']), 'flip': bool(r.integers(0, 5) == 0),
+               'qform': pick(['array', 'list', 'QuaternionArray', 'scaled', 'float32']), 'flip': bool(r.integers(0, 5) == 0),
                'twice': bool(r.integers(0, 6) == 0)}
         if r.integers(0, 3) == 0:
             inp['mref'] = (r.standard_normal(3) * 10 ** r.uniform(-1, 4)).tolist()
             inp['gref'] = (r.standard_normal(3) * 9.8).tolist()
+        if r.integers(0, 8) == 0:
+            inp['mref'] = [int(x) for x in r.integers(-40000, 40000, 3)]; inp['gref'] = [0, 0, 10]; inp['ref_as_list'] = True
         if r.integers(0, 12) == 0:
             inp['mref'] = [0.5, 0.5, 0.5]; inp['sm'] = 0.0; inp['traj'] = 'stationary'    # ptp(magnetometers) = 0
         ctx.check('sensors', inp, sens_call(inp),
